@@ -120,20 +120,20 @@ namespace Givaro {
             if (*_cnt ==1) {
                 if (_psz >=s) { _size = s; return; }
             }
-            else (*_cnt) --;
         }
         if (s >0) {
             T* tmp = GivaroMM<T>::allocate(s);
-            GivaroMM<T>::initialize(tmp+_size, s-_size);
+            const size_t n = (_size < s) ? _size : s;
+            GivaroMM<T>::initialize(tmp+n, s-n);
             if (_cnt !=0) {
-                for (size_t i=0; i<_size; i++)
+                for (size_t i=0; i<n; i++)
                     GivaroMM<T>::initone(&(tmp[i]), _d[i]);
                 this->destroy();
             }
             _cnt = GivaroMM<int>::allocate(1);
             *_cnt = 1;
             _d = tmp;
-        } else _cnt =0;
+        } else this->destroy();
         _psz = _size = s;
     }
 
